@@ -23,9 +23,14 @@ structure Cfg where
   /-- when not all: at least the stocks and flows of the scenario are evaluated at each step (a seeded
       defect: "the state equations carry the history"); irrelevant when `stepFinalisesAll` -/
   stepFinalisesState : Bool := true
+  /-- REST `POST /run`: the scenario cache is reset for every scenario the request's `settings` name, whatever
+      the settings contain (a seeded defect: only when they contain constants / points / properties / agents —
+      settings that carry only `runspecs` keep the memoised values of the earlier run) -/
+  runResetsOnAnySettings : Bool := true
 deriving DecidableEq, Repr
 
-def Cfg.good (c : Cfg) : Bool := c.sessionDtFromScenario && c.stepClockNormalised && c.stepFinalisesAll
+def Cfg.good (c : Cfg) : Bool :=
+  c.sessionDtFromScenario && c.stepClockNormalised && c.stepFinalisesAll && c.runResetsOnAnySettings
 
 /-- The abstract simulator: `val f e k` is the value of equation `e` at grid index `k` when the
 settings in force at grid index `i` are `f i`. -/
@@ -242,5 +247,52 @@ def msteps {α : Type} (fs : FinSet) (nEq : Nat) (kind : Nat → C08.Kind) (ops 
 /-- the definitions in force at grid index `i` when the single steps carried the settings `ss` -/
 def defsAt {α : Type} (base : Nat → C08.Expr α) (ss : List (CSet α)) (i : Nat) : Nat → C08.Expr α :=
   (ss.take (i + 1)).foldl applySet base
+
+/-! ### Wave 3 — sequences of `POST /run` requests on ONE server
+
+The server-level bptk object lives across requests: a scenario keeps the settings earlier requests gave it
+and its model keeps the memo of earlier runs.  `C` = constants / points part of the settings, `R` = run specs.
+A request either has no `settings` entry for the scenario (`none`: nothing is reset, nothing changes) or one
+(`some`): `_run_resource` resets the scenario cache (mechanism fact `runResetsOnAnySettings`), writes the
+settings into the scenario and runs it.  The memo is recorded as the list of settings under which its
+entries were computed (`gens`); what a run returns is an uninterpreted function of that and of the current
+settings. -/
+
+structure RunSet (C R : Type) where
+  consts : Option C
+  rs : Option R
+
+structure RunSim (C R Out : Type) where
+  mergeC : C → C → C
+  mergeR : R → R → R
+  result : List (C × R) → C × R → Out
+
+structure RunSt (C R : Type) where
+  cur : C × R
+  gens : List (C × R)
+
+def applyReq {C R Out : Type} (sim : RunSim C R Out) (cur : C × R) : Option (RunSet C R) → C × R
+  | none => cur
+  | some q => ((match q.consts with | some x => sim.mergeC cur.1 x | none => cur.1),
+               (match q.rs with | some x => sim.mergeR cur.2 x | none => cur.2))
+
+def rstep {C R Out : Type} (c : Cfg) (sim : RunSim C R Out) (st : RunSt C R) (req : Option (RunSet C R)) :
+    RunSt C R × Out :=
+  let reset := match req with
+    | none => false
+    | some q => c.runResetsOnAnySettings || q.consts.isSome
+  let gens := if reset then [] else st.gens
+  let cur := applyReq sim st.cur req
+  ({ cur := cur, gens := gens ++ [cur] }, sim.result gens cur)
+
+def rruns {C R Out : Type} (c : Cfg) (sim : RunSim C R Out) : List (Option (RunSet C R)) → RunSt C R → List Out
+  | [], _ => []
+  | q :: qs, st => (rstep c sim st q).2 :: rruns c sim qs (rstep c sim st q).1
+
+/-- what the property demands: every reply is the batch run of a freshly built model (empty memo) carrying the
+settings accumulated so far -/
+def idealRuns {C R Out : Type} (sim : RunSim C R Out) : List (Option (RunSet C R)) → C × R → List Out
+  | [], _ => []
+  | q :: qs, cur => sim.result [] (applyReq sim cur q) :: idealRuns sim qs (applyReq sim cur q)
 
 end Bptk.C09
